@@ -121,6 +121,17 @@ def same(a, b, tol=0.0):
     return False
 
 
+def close12(r, e, tol=1e-12):
+    """oracle comparison for transcendental results: equal, or within tol * max(1, |expected|)
+    (log(1 + tiny) legitimately rounds to 0, so a purely relative bound is wrong near 0)"""
+    r, e = item(r), item(e)
+    if same(r, e):
+        return True
+    if tol == 0.0 or r != r or e != e or math.isinf(r) or math.isinf(e):
+        return False
+    return abs(r - e) <= tol * max(1.0, abs(e))
+
+
 def classify(v):
     v = float(item(v))
     if v != v:
@@ -178,6 +189,14 @@ def same(a, b, tol=0.0):
     if a == b: return True
     if tol and a == a and b == b and not (math.isinf(a) or math.isinf(b)): return abs(a-b) <= tol*max(abs(a),abs(b))
     return False
+def close(r, e, tol=1e-12):
+    r = r.item() if hasattr(r, "item") else r
+    if same(r, e): return True
+    if tol == 0.0 or r != r or e != e or math.isinf(r) or math.isinf(e): return False
+    return abs(r - e) <= tol * max(1.0, abs(e))
+def allclose12(a, b, tol=1e-12):
+    a = np.asarray(a); b = np.asarray(b)
+    return a.shape == b.shape and all(close(x, y, tol) for x, y in zip(a.ravel().tolist(), b.ravel().tolist()))
 def allsame(a, b, tol=0.0):
     a = np.asarray(a); b = np.asarray(b)
     return a.shape == b.shape and all(same(x, y, tol) for x, y in zip(a.ravel().tolist(), b.ravel().tolist()))
@@ -927,3 +946,563 @@ def agreement_grid(ctx, volume=1):
             if check_agree(ctx, name, p, "bool"):
                 ctx.case(nontrivial_key=(name, p))
         check_elementwise(ctx, name, bpairs + bpairs[:2], (3, 2), "bool")
+
+
+# ---------------------------------------------------------------------------------------
+# (4) special values of the stabilised ops: Python oracle + abstract class / provenance
+# ---------------------------------------------------------------------------------------
+
+VARIANTS = ["scalar", "arr", "numArr", "arrNum"]
+
+
+def variant_args(variant, a, b):
+    if variant == "scalar":
+        return a, b
+    if variant == "arr":
+        return np.asarray(a), np.asarray(b)
+    if variant == "numArr":
+        return a, np.asarray(b)
+    return np.asarray(a), b
+
+
+def variant_code(name, variant, a, b):
+    A = hx(a) if variant in ("scalar", "numArr") else f"np.asarray({hx(a)})"
+    B = hx(b) if variant in ("scalar", "arrNum") else f"np.asarray({hx(b)})"
+    return f"ops.{name}({A}, {B})"
+
+
+def lae_oracle(a, b):
+    if a == -INF:
+        return b
+    if b == -INF:
+        return a
+    return max(a, b) + math.log1p(math.exp(-abs(a - b)))
+
+
+def log_dom(v):
+    return v == v and v != INF
+
+
+def special_oracles(ctx, name, variant, a, b, r):
+    """Python-side statement of the property for one concrete call; returns a failure tuple or None."""
+    if is_exc(r):
+        return None
+    code = variant_code(name, variant, a, b)
+    rv = float(item(r))
+    if name == "logaddexp" and log_dom(a) and log_dom(b):
+        exp = lae_oracle(a, b)
+        exact = a == -INF or b == -INF
+        # 1e-12 relative to max(1, |expected|): log(1 + tiny) legitimately rounds to 0
+        okv = same(rv, exp) if exact else (rv == rv and (same(rv, exp) or abs(rv - exp) <= 1e-12 * max(1.0, abs(exp))))
+        if not okv:
+            return ("C15.logaddexp-limit", exp, rv,
+                    PRELUDE + f"r = float({code})\nprint(r)\ne = {hx(exp)}\n"
+                    + ("FAILS = not same(r, e)\n" if exact else
+                       "FAILS = not (r == r and (same(r, e) or abs(r - e) <= 1e-12 * max(1.0, abs(e))))\n"))
+    stab = variant in ("arr", "numArr")
+    if name == "safesub" and stab and a == a and b == b and not (a == INF and b == INF):
+        exp = a + min(-b, FMAX)
+        if rv != rv or (math.isfinite(b) and not same(rv, a - b)) or (a == -INF and b == -INF and rv != -INF):
+            return ("C15.safesub-nan", exp, rv, PRELUDE + f"r = {code}\nprint(r)\nFAILS = bool(r != r) or not same(r, {hx(exp)})\n")
+    if name == "safediv" and stab and a == a and b == b and (b > 0 or (b == 0 and math.copysign(1, b) > 0)) \
+            and not (math.isinf(a) and math.isinf(b)):
+        if rv != rv or (a == 0 and b == 0 and rv != 0):
+            return ("C15.safediv-nan", "not NaN (0/0 = 0)", rv, PRELUDE + f"r = {code}\nprint(r)\nFAILS = bool(r != r)\n")
+    return None
+
+
+def special_grid(ctx, use_driver=True, volume=1):
+    rng = ctx.rng
+    fl = EDGE + [700.0, -700.0, 1e308, -1e308, 0.5, 3.0, -2.5] + random_floats(rng, 4 * volume)
+    pairs = list(itertools.product(fl, repeat=2))
+    reqs, meta = [], []
+    for name in ("logaddexp", "safesub", "safediv", "max", "min", "sample"):
+        op = get_op(name)
+        for variant in VARIANTS:
+            if name == "sample" and variant not in ("scalar", "arr"):
+                continue
+            for a, b in pairs:
+                r = call(op, *variant_args(variant, a, b))
+                ctx.count(f"special:{name}:{variant}")
+                bad = special_oracles(ctx, name, variant, a, b, r) if name != "sample" else None
+                if bad:
+                    ctx.fail("input", f"{bad[0]}:{variant}", witness=dict(op=name, variant=variant, a=jv(a), b=jv(b)),
+                             expected=jv(bad[1]), got=jv(bad[2]), python=bad[3])
+                    continue
+                if not is_exc(r) and float(item(r)) != float(item(r)):
+                    ctx.count(f"observed:nan-outside-domain:{name}:{variant}")
+                if name in ("safesub", "safediv") and variant in ("scalar", "arrNum") and kf_region(name, a, b):
+                    ctx.count("special:kf-region(model-follows-code)")
+                reqs.append(f"C15 special {name} {variant} {classify(a)} {classify(b)} {order(a, b)}")
+                meta.append((name, variant, a, b, r))
+                ctx.case(nontrivial_key=("special", name, variant, a.hex(), b.hex()))
+    for name, fn in (("reciprocal", ops.reciprocal), ("log", ops.log)):
+        for variant in ("scalar", "arr"):
+            for a in fl:
+                r = call(fn, a if variant == "scalar" else np.asarray(a))
+                ctx.count(f"special:{name}:{variant}")
+                if name == "reciprocal" and variant == "arr" and not is_exc(r):
+                    rv = float(item(r))
+                    if rv != rv or rv == INF:
+                        ctx.fail("input", "C15.reciprocal-nan", witness=dict(op=name, variant=variant, a=jv(a)),
+                                 expected="finite or -inf, never NaN / +inf", got=jv(rv),
+                                 python=PRELUDE + f"r = ops.reciprocal(np.asarray({hx(a)}))\nprint(r)\nFAILS = bool(r != r) or bool(r == inf)\n")
+                        continue
+                reqs.append(f"C15 special1 {name} {variant} {classify(a)}")
+                meta.append((name, variant, a, None, r))
+                ctx.case(nontrivial_key=("special1", name, variant, a.hex()))
+    # the bool branch of the array log
+    lb = ops.log(np.array([False, True]))
+    if not (lb[0] == -INF and lb[1] == 0.0):
+        ctx.fail("input", "C15.log-bool", witness=dict(x=[False, True]), expected=["-inf", "0.0"], got=jv(lb),
+                 python=PRELUDE + "r = ops.log(np.array([False, True]))\nFAILS = not (r[0] == -inf and r[1] == 0.0)\n")
+    if not use_driver:
+        return
+    ans = ctx.driver.ask(reqs)
+    for (name, variant, a, b, r), an, rq in zip(meta, ans, reqs):
+        p = parse_av(an)
+        if p is None:
+            ctx.infra_errors.append(f"driver: {an} for {rq}")
+            return
+        kind, classes, tag = p
+        w = dict(op=name, variant=variant, a=jv(a), b=jv(b) if b is not None else None, request=rq,
+                 model=an, impl=jv(r) if not is_exc(r) else list(r))
+        code = variant_code(name, variant, a, b) if b is not None else \
+            f"ops.{name}({hx(a) if variant == 'scalar' else 'np.asarray(' + hx(a) + ')'})"
+        if kind == "raises" or is_exc(r):
+            ctx.count("special:raises")
+            if (kind == "raises") != is_exc(r):
+                ctx.fail("correspondence", f"C15.special-class:{name}:{variant}", witness=w,
+                         expected=an, got=w["impl"],
+                         python=PRELUDE + f"r = call(lambda: {code})\nprint(r)\nFAILS = isinstance(r, tuple) != {kind == 'raises'}\n")
+            continue
+        c = classify(r)
+        okc = in_classes(c, classes)
+        okt = True
+        if tag == "x":
+            okt = same(r, a)
+        elif tag == "y":
+            okt = same(r, b)
+        ctx.count("special:class-checks")
+        if tag != "none":
+            ctx.count("special:provenance-checks")
+        if not (okc and okt):
+            ctx.fail("correspondence", f"C15.special-class:{name}:{variant}", witness=w,
+                     expected=f"class in {classes}, provenance {tag}", got=f"{jv(r)} (class {c})",
+                     python=PRELUDE + f"r = {code}\nprint(r)\n"
+                     + "def cls(v):\n    v = float(v)\n    if v != v: return 'nan'\n    if v == inf: return 'pinf'\n"
+                       "    if v == -inf: return 'ninf'\n    if v == 0: return 'nzero' if math.copysign(1, v) < 0 else 'pzero'\n"
+                       "    return 'one' if v == 1 else ('pos' if v > 0 else 'neg')\n"
+                     + f"c = cls(r); pred = {classes!r}\nFAILS = not (c in pred or (c == 'one' and 'pos' in pred))"
+                     + (f" or not same(r, {hx(a)})" if tag == "x" else (f" or not same(r, {hx(b)})" if tag == "y" else "")) + "\n")
+
+
+# ---------------------------------------------------------------------------------------
+# (5) numpy / python primitives against the Lean transfer functions
+# ---------------------------------------------------------------------------------------
+
+def primitive_grid(ctx):
+    rng = ctx.rng
+    fl = EDGE + [700.0, -700.0, 1e308, -1e308, 0.5, 3.0, -2.5, 1e-320, -1e-320, 1e-300, 1e300] + random_floats(rng, 6)
+    finfo = np.finfo(np.float64)
+
+    def pymax(a, b):
+        return max(a, b)
+
+    def pymin(a, b):
+        return min(a, b)
+    bins = {"add": np.add, "sub": np.subtract, "mul": np.multiply, "div": np.true_divide,
+            "maxnp": np.maximum, "minnp": np.minimum, "maxpy": pymax, "minpy": pymin}
+    uns = {"neg": np.negative, "recip": np.reciprocal, "exp": np.exp, "lognp": np.log,
+           "logpy": ops.log.default, "cliplo": lambda v: np.clip(v, finfo.min, None),
+           "cliphi": lambda v: np.clip(v, None, finfo.max)}
+    reqs, meta = [], []
+    for nm, f in bins.items():
+        for a, b in itertools.product(fl, repeat=2):
+            r = f(a, b) if nm in ("maxpy", "minpy") else f(np.float64(a), np.float64(b))
+            reqs.append(f"C15 prim {nm} {classify(a)} {classify(b)}")
+            meta.append((nm, a, b, float(r)))
+    for nm, f in uns.items():
+        for a in fl:
+            r = f(a) if nm == "logpy" else f(np.float64(a))
+            reqs.append(f"C15 prim {nm} {classify(a)}")
+            meta.append((nm, a, None, float(r)))
+    ans = ctx.driver.ask(reqs)
+    for (nm, a, b, r), an, rq in zip(meta, ans, reqs):
+        ctx.count("prim:checks")
+        if not an.startswith("ok "):
+            ctx.infra_errors.append(f"driver: {an} for {rq}")
+            return
+        classes = [str(x) for x in parse_sx(an[3:])]
+        if not in_classes(classify(r), classes):
+            ctx.infra_errors.append(f"Lean transfer function {nm} is unsound: {a!r}, {b!r} -> {r!r} "
+                                    f"(class {classify(r)}) but model predicts {classes}")
+            return
+
+
+# ---------------------------------------------------------------------------------------
+# (6) logsumexp, log-space einsum, max-plus einsum
+# ---------------------------------------------------------------------------------------
+
+def lse_oracle(xs):
+    m = max(xs)
+    if m == -INF:
+        return -INF
+    if m == INF:
+        return INF
+    return m + math.log(math.fsum(math.exp(x - m) for x in xs))
+
+
+def lse_tol(xs):
+    return 0.0 if sum(1 for x in xs if x != -INF) <= 1 else 1e-12
+
+
+def log_values(rng, n, allow_pinf=False):
+    centre = rng.choice([0.0, 0.0, 5.0, -700.0, 700.0, 1e308, -1e308, 1.7e308, -1.7e308, 1e-300])
+    out = []
+    for _ in range(n):
+        k = rng.random()
+        if k < 0.3:
+            out.append(-INF)
+        elif k < 0.35 and allow_pinf:
+            out.append(INF)
+        elif k < 0.45:
+            out.append(rng.choice([0.0, -0.0, 1.0, -1.0, FMAX, -FMAX, FMIN, SUB]))
+        else:
+            out.append(float(centre + rng.uniform(-30, 0)) if abs(centre) < 1e300 else float(centre))
+    return out
+
+
+def logsumexp_stream(ctx, n_cases, use_driver=True):
+    rng = ctx.rng
+    reqs, meta = [], []
+    fixed = [[-INF], [-INF, -INF], [-INF] * 5, [0.0, -INF], [-INF, 3.5, -INF], [1e308, 1e308], [-1e308, -1e308],
+             [FMAX, FMAX], [-FMAX, -INF], [INF, 0.0], [INF, -INF]]
+    for k in range(n_cases + len(fixed)):
+        xs = fixed[k] if k < len(fixed) else log_values(rng, rng.randint(1, 5), allow_pinf=rng.random() < 0.1)
+        r = call(ops.logsumexp, np.array(xs))
+        ctx.count("lse:1d")
+        if is_exc(r):
+            ctx.count("lse:declined")
+            continue
+        exp = lse_oracle(xs)
+        rv = float(r)
+        if not close12(rv, exp, lse_tol(xs)):
+            ctx.fail("input", "C15.logsumexp-limit", witness=dict(x=jv(xs)), expected=jv(exp), got=jv(rv),
+                     python=PRELUDE + f"r = ops.logsumexp(np.array([{', '.join(hx(x) for x in xs)}]))\nprint(r)\n"
+                                      f"FAILS = not close(r, {hx(exp)}, {lse_tol(xs)})\n")
+            continue
+        reqs.append("C15 lse (" + " ".join(classify(x) for x in xs) + ")")
+        meta.append((xs, rv))
+        ctx.case(sample=dict(op="logsumexp", x=jv(xs), result=jv(rv)) if k == len(fixed) else None,
+                 nontrivial_key=("lse", tuple(x.hex() for x in xs)))
+    # 2-d, axis / keepdims
+    for _ in range(n_cases // 2):
+        shape = rng.choice([(3, 2), (2, 1), (2, 3), (1, 3)])
+        xs = np.array(log_values(rng, shape[0] * shape[1])).reshape(shape)
+        axis = rng.choice([None, 0, 1, -1])
+        keep = rng.random() < 0.5
+        r = call(ops.logsumexp, xs, axis, keep)
+        ctx.count("lse:2d")
+        if is_exc(r):
+            ctx.count("lse:declined")
+            continue
+        r = np.asarray(r)
+        if axis is None:
+            exp = np.array(lse_oracle(xs.ravel().tolist())).reshape((1, 1) if keep else ())
+            tols = np.array(lse_tol(xs.ravel().tolist())).reshape(exp.shape)
+        else:
+            ax = axis % 2
+            rows = xs.T.tolist() if ax == 0 else xs.tolist()
+            exp = np.array([lse_oracle(row) for row in rows])
+            tols = np.array([lse_tol(row) for row in rows])
+            if keep:
+                exp, tols = np.expand_dims(exp, ax), np.expand_dims(tols, ax)
+        ok = r.shape == exp.shape and all(close12(a, b, t) for a, b, t in
+                                          zip(r.ravel().tolist(), exp.ravel().tolist(), tols.ravel().tolist()))
+        if not ok:
+            ctx.fail("input", "C15.logsumexp-limit-2d", witness=dict(x=jv(xs), axis=axis, keepdims=keep),
+                     expected=jv(exp), got=jv(r),
+                     python=PRELUDE + f"x = np.array({[[hx(v) for v in row] for row in xs.tolist()]!r}".replace("'", "")
+                     + f")\nr = ops.logsumexp(x, {axis}, {keep})\nprint(r)\n"
+                       f"e = np.array({[hx(v) for v in exp.ravel().tolist()]!r}".replace("'", "") + f").reshape({exp.shape!r})\n"
+                       "FAILS = not allclose12(r, e, 1e-12)\n")
+            continue
+        ctx.case(nontrivial_key=("lse2", xs.tobytes(), axis, keep))
+    if use_driver and reqs:
+        ans = ctx.driver.ask(reqs)
+        for (xs, rv), an, rq in zip(meta, ans, reqs):
+            if not an.startswith("ok "):
+                ctx.infra_errors.append(f"driver: {an} for {rq}")
+                return
+            classes = [str(x) for x in parse_sx(an[3:])]
+            ctx.count("lse:class-checks")
+            if not in_classes(classify(rv), classes):
+                ctx.fail("correspondence", "C15.logsumexp-class", witness=dict(x=jv(xs), request=rq, model=an, impl=jv(rv)),
+                         expected=f"class in {classes}", got=f"{rv!r} ({classify(rv)})")
+
+
+EINSUM_EQS = [("a,a->", [("a",), ("a",)]), ("ab,bc->ac", [("a", "b"), ("b", "c")]), ("ab,b->a", [("a", "b"), ("b",)]),
+              ("ab->a", [("a", "b")]), ("ab,ab->", [("a", "b"), ("a", "b")]), ("a,b->ab", [("a",), ("b",)]),
+              ("ab,bc,c->a", [("a", "b"), ("b", "c"), ("c",)]), ("ab->ba", [("a", "b")]), ("ab->ab", [("a", "b")])]
+
+
+def einsum_oracle(eq, operands, mode):
+    """brute force over index assignments; exact operand sums (Fractions) for the log mode"""
+    from fractions import Fraction
+    ins, out = eq.split("->")
+    ins = ins.split(",")
+    sizes = {}
+    for dims, o in zip(ins, operands):
+        for d, s in zip(dims, o.shape):
+            sizes[d] = s
+    contract = sorted(set("".join(ins)) - set(out))
+    res = np.empty([sizes[d] for d in out])
+    for oidx in itertools.product(*[range(sizes[d]) for d in out]):
+        env = dict(zip(out, oidx))
+        terms = []
+        for cidx in itertools.product(*[range(sizes[d]) for d in contract]):
+            env.update(zip(contract, cidx))
+            vals = [float(o[tuple(env[d] for d in dims)]) for dims, o in zip(ins, operands)]
+            if mode == "max":
+                terms.append(reduce(operator.add, vals))
+            elif any(v == -INF for v in vals):
+                terms.append(None)
+            else:
+                terms.append(sum(Fraction(v) for v in vals))
+        if mode == "max":
+            res[oidx] = max(terms)
+            continue
+        fin = [t for t in terms if t is not None]
+        if not fin:
+            res[oidx] = -INF
+            continue
+        m = max(fin)
+        s = math.fsum(math.exp(float(t - m)) for t in fin)
+        fm = float(m) if abs(m) <= Fraction(FMAX) else (INF if m > 0 else -INF)
+        res[oidx] = fm + math.log(s) if len(fin) > 1 else fm
+    return res
+
+
+def einsum_stream(ctx, n_cases, use_driver=True):
+    from funsor.einsum.numpy_log import einsum as log_einsum
+    from funsor.einsum.numpy_map import einsum as map_einsum
+    rng = ctx.rng
+    reqs, meta = [], []
+    fixed = [("a,a->", [[-INF, -INF], [-INF, -INF]], None), ("a,a->", [[-INF, 0.0], [2.0, -INF]], None),
+             ("a,a->", [[8e307, 8e307], [8e307, 8e307 - 1e300]], None), ("a,a->", [[-8e307, -INF], [-8e307, -INF]], None),
+             ("ab->a", [[[-INF, -INF], [1e308, -INF]]], None), ("a,a->", [[1e308, 1e308], [-1e308, -1e308]], None)]
+    for k in range(n_cases + len(fixed)):
+        mode = "log" if k < len(fixed) or rng.random() < 0.7 else "max"
+        if k < len(fixed):
+            eq, vals, _ = fixed[k]
+            dims = dict(EINSUM_EQS)[eq]
+            operands = [np.array(v, dtype=np.float64) for v in vals]
+        else:
+            eq, dims = rng.choice(EINSUM_EQS)
+            sizes = {d: rng.randint(1, 3) for d in "abc"}
+            # per-operand band (width <= 30) around a centre; the centres' sum stays representable
+            centres = [rng.choice([0.0, 0.0, 5.0, -700.0, 700.0, 5e307, -5e307, 1.7e308, -1.7e308]) for _ in dims]
+            while abs(sum(centres)) > 1.75e308:
+                centres[rng.randrange(len(centres))] = 0.0
+            operands = []
+            for ds, c in zip(dims, centres):
+                shape = tuple(sizes[d] for d in ds)
+                n = int(np.prod(shape))
+                v = [(-INF if rng.random() < 0.3 else (float(c + rng.uniform(-30, 0)) if abs(c) < 1e300 else float(c)))
+                     for _ in range(n)]
+                operands.append(np.array(v, dtype=np.float64).reshape(shape))
+        f = log_einsum if mode == "log" else map_einsum
+        r = call(f, eq, *operands)
+        ctx.count(f"einsum:{mode}")
+        if is_exc(r):
+            ctx.count("einsum:declined")
+            continue
+        r = np.asarray(r, dtype=np.float64)
+        exp = einsum_oracle(eq, operands, mode)
+        scale = max([1.0] + [abs(float(np.max(o[np.isfinite(o)]))) for o in operands if np.isfinite(o).any()])
+
+        def close(a, b):
+            if a == b or (a != a and b != b):
+                return True
+            if mode == "max" or math.isinf(a) or math.isinf(b) or a != a or b != b:
+                return False
+            return abs(a - b) <= 1e-12 * max(abs(b), scale)
+        ok = r.shape == exp.shape and all(close(a, b) for a, b in zip(r.ravel().tolist(), exp.ravel().tolist()))
+        if not ok:
+            ops_src = ", ".join("np.array(" + repr([[hx(v) for v in row] for row in np.atleast_2d(o).tolist()]).replace("'", "")
+                                + f").reshape({o.shape!r})" for o in operands)
+            ctx.fail("input", f"C15.einsum-{mode}-limit", witness=dict(equation=eq, operands=[jv(o) for o in operands], mode=mode),
+                     expected=jv(exp), got=jv(r),
+                     python=PRELUDE + f"from funsor.einsum.numpy_{'log' if mode == 'log' else 'map'} import einsum\n"
+                     f"r = np.asarray(einsum({eq!r}, {ops_src}))\nprint(r)\n"
+                     f"e = np.array({[hx(v) for v in exp.ravel().tolist()]!r}".replace("'", "") + f").reshape({exp.shape!r})\n"
+                     f"FAILS = r.shape != e.shape or not all(same(x, y) or (x == x and y == y and not math.isinf(x) and not math.isinf(y) "
+                     f"and abs(x - y) <= 1e-12 * max(abs(y), {scale!r})) for x, y in zip(r.ravel().tolist(), e.ravel().tolist()))\n")
+            continue
+        ctx.case(sample=dict(op=f"einsum-{mode}", equation=eq, operands=[jv(o) for o in operands]) if k == len(fixed) else None,
+                 nontrivial_key=("einsum", mode, eq, tuple(o.tobytes() for o in operands)))
+        if eq == "a,a->":
+            xs, ys = operands[0].tolist(), operands[1].tolist()
+            cl = lambda vs: "(" + " ".join(classify(v) for v in vs) + ")"   # noqa: E731
+            reqs.append(f"C15 einsumlog false {cl(xs)} {cl(ys)}" if mode == "log" else f"C15 einsummax {cl(xs)} {cl(ys)}")
+            meta.append((mode, xs, ys, float(r)))
+    if use_driver and reqs:
+        ans = ctx.driver.ask(reqs)
+        for (mode, xs, ys, rv), an, rq in zip(meta, ans, reqs):
+            if not an.startswith("ok "):
+                ctx.infra_errors.append(f"driver: {an} for {rq}")
+                return
+            classes = [str(x) for x in parse_sx(an[3:])]
+            ctx.count("einsum:class-checks")
+            if not in_classes(classify(rv), classes):
+                ctx.fail("correspondence", f"C15.einsum-{mode}-class",
+                         witness=dict(x=jv(xs), y=jv(ys), request=rq, model=an, impl=jv(rv)),
+                         expected=f"class in {classes}", got=f"{rv!r} ({classify(rv)})")
+
+
+# ---------------------------------------------------------------------------------------
+# (7) dedicated stream of the open finding KF-safesub-inf, and out-of-domain observations
+# ---------------------------------------------------------------------------------------
+
+KF_PY = PRELUDE + """r1 = ops.safesub(-inf, -inf)                         # Python numbers: plain x - y
+r2 = ops.safesub(np.asarray(-inf), -inf)             # (array, Number): falls through to the default
+r3 = ops.safesub(np.asarray(-inf), np.asarray(-inf)) # stabilised registration
+r4 = ops.safediv(np.asarray(0.0), 0.0)               # (array, Number): plain division
+r5 = ops.safediv(np.asarray(0.0), np.asarray(0.0))
+print("safesub(-inf,-inf): scalar", r1, " (array,Number)", r2, " (array,array)", r3)
+print("safediv(0,0): (array,Number)", r4, " (array,array)", r5)
+FAILS = bool(r1 != r1) or bool(r2 != r2) or bool(r4 != r4)
+"""
+
+
+def kf_stream(ctx):
+    a0, ai = np.asarray(0.0), np.asarray(-INF)
+    sym = {
+        "safesub(-inf,-inf) scalar is NaN": call(ops.safesub, -INF, -INF),
+        "safesub(array(-inf), -inf) is NaN": call(ops.safesub, ai, -INF),
+        "safediv(array(0.), 0.) is NaN": call(ops.safediv, a0, 0.0),
+    }
+    nan_hits = [k for k, v in sym.items() if not is_exc(v) and float(item(v)) != float(item(v))]
+    dis = {
+        "safesub(-1., -inf): scalar inf vs array finfo.max":
+            (call(ops.safesub, -1.0, -INF), call(ops.safesub, np.asarray(-1.0), ai)),
+        "reciprocal(5e-324): scalar inf vs array finfo.max":
+            (call(ops.reciprocal, SUB), call(ops.reciprocal, np.asarray(SUB))),
+        "safediv(1., 0.): scalar raises vs array finfo.max":
+            (call(ops.safediv, 1.0, 0.0), call(ops.safediv, np.asarray(1.0), a0)),
+    }
+    dis_hits = [k for k, (s, v) in dis.items() if is_exc(s) != is_exc(v) or (not is_exc(s) and not same(s, v))]
+    stab_ok = same(call(ops.safesub, ai, ai), -INF) and same(call(ops.safediv, a0, a0), 0.0)
+    ctx.count("kf-stream:symptoms-nan", len(nan_hits))
+    ctx.count("kf-stream:symptoms-disagree", len(dis_hits))
+    reproduced = bool(nan_hits)
+    what = ("safesub/safediv/reciprocal: the scalar default and the (array, Number) fall-through are not "
+            "stabilised (plain sub/truediv/1.0/x): " + "; ".join(nan_hits + dis_hits)
+            + f" — while the (array, array)/(Number, array) registrations give -inf / 0 (checked: {stab_ok})")
+    ctx.case(sample=dict(stream=KF, reproduced=reproduced, nan=nan_hits, disagree=dis_hits),
+             nontrivial_key=("kf", tuple(nan_hits), tuple(dis_hits)))
+    if not ctx.known(KF, reproduced, what if reproduced else None) and reproduced:
+        ctx.fail("input", "C15.safe-ops-unstabilised", witness=dict(nan=nan_hits, disagree=dis_hits,
+                 values={k: jv(v) if not is_exc(v) else list(v) for k, v in sym.items()}),
+                 expected="never NaN inside the domain; same answer as the array variant", got="; ".join(nan_hits),
+                 python=KF_PY)
+
+
+def observations(ctx):
+    """behaviour OUTSIDE the stated domains, recorded (never gated) so the evidence shows where the
+    domain boundaries of the theorems lie on the real code"""
+    from funsor.einsum.numpy_log import einsum as log_einsum
+    obs = {
+        "safesub(+inf,+inf) arrays -> nan (indeterminate, outside domain)":
+            call(ops.safesub, np.asarray(INF), np.asarray(INF)),
+        "safediv(inf,inf) arrays -> nan (outside domain)": call(ops.safediv, np.asarray(INF), np.asarray(INF)),
+        "safediv(0., -0.) arrays -> nan (negative-zero divisor, outside domain)":
+            call(ops.safediv, np.asarray(0.0), np.asarray(-0.0)),
+        "safediv(5e-324, 5e-324) arrays -> 8.9e-16 not 1 (subnormal divisor, outside domain)":
+            call(ops.safediv, np.asarray(SUB), np.asarray(SUB)),
+        "sample(array(-inf), array(-inf)) -> nan (ops.sample uses the unclipped default body on arrays)":
+            call(ops.sample, np.asarray(-INF), np.asarray(-INF)),
+        "log-einsum a,a-> [9e307,-inf]·[-inf,9e307] -> nan (sum of shifts overflows; exact value -inf)":
+            call(log_einsum, "a,a->", np.array([9e307, -INF]), np.array([-INF, 9e307])),
+        "log-einsum a,a-> [800,0]·[-800,5] -> -inf not 5.0067 (per-operand dynamic range > 745)":
+            call(log_einsum, "a,a->", np.array([800.0, 0.0]), np.array([-800.0, 5.0])),
+        "scalar log(-1.) -> -inf but array log -> nan (x < 0 outside domain)":
+            (call(ops.log, -1.0), call(ops.log, np.asarray(-1.0))),
+    }
+    ctx.extra["observations_outside_domain"] = {k: jv(v) if not is_exc(v) else list(v) for k, v in obs.items()}
+    same_default = getattr(ops.sample, "default", None) is getattr(ops.logaddexp, "default", 1)
+    ctx.extra["sample_default_is_logaddexp_default"] = bool(same_default)
+    if not same_default:
+        ctx.fail("correspondence", "C15.sample-denotation",
+                 witness=dict(what="ops.sample.default is not ops.logaddexp.default: the catalogue entry "
+                                   "(sample, add) is justified only for logaddexp's numeric denotation"))
+
+
+# ---------------------------------------------------------------------------------------
+# correspond / search
+# ---------------------------------------------------------------------------------------
+
+def correspond(ctx):
+    ctx.rule = (
+        "law grid: every live entry of UNITS / DISTRIBUTIVE_OPS / *_INVERSES / PRODUCT_TO_POWER evaluated on the "
+        "real ops over the op's carrier (dyadic reals, non-negative for (max|min,mul), ±inf for max/min/log units, "
+        "booleans), scalars + 0-d + arrays; boolean semiring exhaustive (8 triples × scalar/0-d + arrays); "
+        "agreement grid: edge values {±0, ±1, ±inf, ±float max, ±smallest normal, ±smallest subnormal} ∪ seeded "
+        "random floats (moderate, 1e±300, ±600..760, subnormal), all ordered pairs, every float op; ints and bools "
+        "for the integer/boolean ops; forms: Python scalar (reference) vs 0-d array, numpy scalar, number×array in "
+        "both orders, elementwise + broadcast on shapes (), (1,), (3,), (2,1), (3,2); special-value grid: every "
+        "variant (scalar, arr, numArr, arrNum) of logaddexp/safesub/safediv/max/min/sample, reciprocal/log, against a "
+        "Python oracle and against the class set + provenance of the Lean model; numpy primitives vs Lean transfer "
+        "functions; logsumexp (1-d, 2-d axis/keepdims), log-space and max-plus einsum (9 equations) with -inf "
+        "entries and operand bands near 0, ±700, ±5e307, ±1.7e308 against a brute-force oracle.  Non-trivial = "
+        "the reference evaluation returned a value inside the op's domain; distinct by (op, form/variant, operand bits).")
+    live = getattr(ctx, "c15_live", None) or live_tables()
+    ctx.c15_live = live
+    table_echo(ctx)
+    law_grid(ctx)
+    exact_eval_tie(ctx)
+    bool_semiring(ctx)
+    agreement_grid(ctx)
+    special_grid(ctx)
+    primitive_grid(ctx)
+    big = ctx.tier != "quick"
+    logsumexp_stream(ctx, 3000 if big else 300)
+    einsum_stream(ctx, 4000 if big else 400)
+    if big:
+        for _ in range(6):
+            agreement_grid(ctx)
+            special_grid(ctx)
+    kf_stream(ctx)
+    observations(ctx)
+    ctx.exhaustive = False
+    ctx.assumptions += [
+        "C15: bit-exact IEEE-754 arithmetic is not modelled; the abstract domain {nan,-inf,<0,-0,+0,>0,1,+inf} has "
+        "sound class-level transfer functions validated against numpy on the grid (prim:checks); 'near the float "
+        "range boundary' is grid-checked against a Python oracle, not proved",
+        "C15: domains stated in the theorems — logaddexp/logsumexp/log-einsum: no NaN, no +inf operands (log-einsum "
+        "additionally: per-operand band < 745 wide and a representable sum of shifts); safesub: not (+inf,+inf); "
+        "safediv/reciprocal: divisor +0, or normal, or +inf with a finite numerator; log: x >= 0",
+        "C15: (sample, add) is accepted for the numeric denotation of logaddexp only (same default body); its "
+        "sampling semantics is declared unmodelled",
+        "C15: the laws are proved on ideal carriers (commutative semirings / rings / fields, WithBot/WithTop Q, "
+        "Q with non-negative multiplier, Bool, WithBot R via exp); the tie to float ops is the law grid on "
+        "exactly representable operands",
+    ]
+
+
+def search(ctx, broken):
+    """A proof, the build or the correspondence broke: evaluate every live table entry's law on the
+    real ops (the concrete counter-entry of a failed table obligation), then the Python-only
+    oracles at higher volume."""
+    ctx.extra["search_ran_for"] = list(broken)
+    n0 = sum(1 for f in ctx.failures if f.witness is not None and f.kind == "input")
+    law_grid(ctx, volume=3, record=False)
+    bool_semiring(ctx)
+    for _ in range(3):
+        agreement_grid(ctx, volume=2)
+        special_grid(ctx, use_driver=False, volume=3)
+        logsumexp_stream(ctx, 1500, use_driver=False)
+        einsum_stream(ctx, 1500, use_driver=False)
+        if sum(1 for f in ctx.failures if f.witness is not None and f.kind == "input") > n0:
+            return
